@@ -287,7 +287,62 @@ class Normalizer(object):
         for m in self.db.modules.values():
             self.visit_scope(m.tree, m, None, None)
         self.stats['helpers'] = sorted(self.stats['helpers'])
+        self.stats['removed'] = self.remove_dead_helpers()
         return self.stats
+
+    def remove_dead_helpers(self):
+        """A helper every call of which was inlined is no longer part of the
+        program: drop its definition so that whole-program rules do not see
+        its body a second time."""
+        removed = []
+        for key in self.stats['helpers']:
+            modname, qual = key.split(':')
+            name = qual.split('.')[-1]
+            m = self.db.modules[modname]
+            target = None
+            for f in self.db.funcs:
+                if f.module is m and f.qualname == qual:
+                    target = f
+            if target is None:
+                continue
+            used = False
+            for mm in self.db.modules.values():
+                for n in ast.walk(mm.tree):
+                    if n is target.node:
+                        continue
+                    if isinstance(n, ast.Attribute) and n.attr == name:
+                        used = True
+                    elif isinstance(n, ast.Name) and n.id == name and \
+                            isinstance(n.ctx, ast.Load):
+                        used = True
+                    elif isinstance(n, ast.Constant) and n.value == name:
+                        used = True
+            if used:
+                # references from inside its own body do not count
+                own = set(id(x) for x in ast.walk(target.node))
+                used = False
+                for mm in self.db.modules.values():
+                    for n in ast.walk(mm.tree):
+                        if id(n) in own:
+                            continue
+                        if (isinstance(n, ast.Attribute) and n.attr == name)\
+                                or (isinstance(n, ast.Name) and n.id == name
+                                    and isinstance(n.ctx, ast.Load)) or (
+                                        isinstance(n, ast.Constant)
+                                        and n.value == name):
+                            used = True
+            if used:
+                continue
+            for mm in (m,):
+                for parent in ast.walk(mm.tree):
+                    for fld in ('body', 'orelse'):
+                        b = getattr(parent, fld, None)
+                        if isinstance(b, list) and target.node in b:
+                            b.remove(target.node)
+                            if not b:
+                                b.append(ast.Pass())
+                            removed.append(key)
+        return removed
 
     # -- N2 ----------------------------------------------------------------
     def constants(self, m):
@@ -768,18 +823,22 @@ class Normalizer(object):
             for h in hdrs:
                 order = eval_order(h)
                 condpos = conditional_positions(h)
-                seen_call = False
+                earlier = []
                 for n in order:
                     if isinstance(n, (ast.Lambda, ast.GeneratorExp)):
-                        seen_call = True
+                        earlier.append(n)
                         continue
                     if isinstance(n, ast.Call):
                         if id(n) not in condpos:
                             r = self.resolve_call(n, ctx)
                             if r is not None:
-                                found = (n, h, seen_call)
+                                # calls completed before this one that are
+                                # not its own arguments
+                                own = set(id(x) for x in ast.walk(n))
+                                found = (n, h, any(id(x) not in own
+                                                   for x in earlier))
                                 break
-                        seen_call = True
+                        earlier.append(n)
                 if found:
                     break
                 if any(isinstance(n, ast.Call) for n in order):
